@@ -577,13 +577,16 @@ pub fn isolation(tier: Tier, w: &Arc<World>) -> Scn {
     desc.push(']');
     // some endpoints come back later for a second, different transfer (long after the first is over)
     let nre = d.range("swarm.reused_endpoints", 3) as usize;
-    for j in 0..nre.min(k) {
+    // ... and some of them again and again: a long session of one socket against one server
+    let chain = if nre > 0 && d.chance("swarm.reuse.chain", 1, 3) { 1 + d.range("swarm.reuse.chain.len", 3) as usize } else { 0 };
+    for jj in 0..(nre.min(k) + chain) {
+        let j = jj.min(nre.min(k) - 1);
         let first = clients[j].peer;
         let upload = d.chance("swarm.reuse.upload", 1, 2);
         let oc = draw_options(&d, false, None);
         let len = draw_len(&d, oc.b, oc.w, 12, 1 << 17);
-        let data = Arc::new(content(len, 300 + j as u64));
-        let name = format!("{}r{j}.bin", if upload { "u" } else { "f" });
+        let data = Arc::new(content(len, 300 + jj as u64));
+        let name = format!("{}r{jj}.bin", if upload { "u" } else { "f" });
         let path = dir.join(&name);
         if !upload {
             std::fs::write(&path, &*data).unwrap();
@@ -601,7 +604,7 @@ pub fn isolation(tier: Tier, w: &Arc<World>) -> Scn {
         desc.push_str(&format!(" again:{}{len}@peer{first}", if upload { "U" } else { "D" }));
         clients.push(ClientSpec { client: c, peer: p, upload, content: data.clone(), path: path.clone() });
         xspecs.push(XferSpec { client: c, peer: p, kind: if upload { Kind::Upload } else { Kind::Download }, content: data, path, conformant: true, dally: true, timeout_ratio: 1 });
-        starts.push((p, 4000 * SEC + j as Ns * MS));
+        starts.push((p, 4000 * SEC * (1 + jj.saturating_sub(j)) as Ns + j as Ns * MS));
     }
     let mut abandoned_from: Vec<std::net::SocketAddr> = vec![];
     if srv.single_port && d.chance("swarm.live_predecessor", 1, 3) {
